@@ -577,6 +577,13 @@ fn main() {
                             json!([bits, limbs64(file), name1])
                         }).collect();
                         out.ev(json!({"ev":"HetW","case":case,"b":sp.as_bytes(),"r":r}));
+                        // the convenience wrapper crypto::calculate_het_hashes at every width as well (round 5: it was only
+                        // driven at width 48): same reference, one more entry point
+                        let rw: Vec<Value> = widths.iter().map(|&bits| {
+                            let (file, name1) = calculate_het_hashes(&sp, bits as u8);
+                            json!([bits, limbs64(file), name1])
+                        }).collect();
+                        out.ev(json!({"ev":"HetW","case":case,"via":"wrap","b":sp.as_bytes(),"r":rw}));
                     }
                 }
             }
